@@ -1,5 +1,6 @@
 SPECIFICATION Spec
 CONSTANTS
+  Emit = FALSE
   Lits = {"x", "X", "~x", "y", "Y", "zz", "Zz"}
   Values = {"1", "red", "1px"}
   MaxLen = 3
